@@ -1,6 +1,6 @@
 \* t_layout: see checks/ringlookup_common.py (UNIVERSES) for what this universe is for
 CONSTANTS
-  NK = 7
+  NK = 6
   Gaps = {3}
   N = 3
   MaxTok = 2
